@@ -138,7 +138,7 @@ class Main(Suite):
     name = "main"
     go_cmd = "c19"
     coq_imports = "From GoGit Require Import Spec.AStore Model.Txn."
-    quick_n = 400
+    quick_n = 300
     thorough_n = 2500
     coq_chunk = 250
 
